@@ -30,7 +30,11 @@ def opt_case(draw, max_n):
     else:
         opts['max_iters'] = draw(st.integers(1, 12))
     return {'sig': sig, 'opts': opts, 'interp': draw(st.sampled_from(['splrep', 'splrep', 'pchip', 'mono_pchip'])),
-            'pad': draw(st.integers(1, 4))}
+            'pad': draw(st.integers(1, 4)), 'par': draw(st.sampled_from([False, False, False, True])),
+            'magpad': draw(st.sampled_from([None, None, None, 0, 1, 2, 3]))}
+
+
+MAGPADS = [{'mode': 'mean', 'stat_length': 3}, {'mode': 'median', 'stat_length': 3}, {'mode': 'edge'}, {'mode': 'maximum'}]
 
 
 def tier_n(fn, q, t):
@@ -42,7 +46,12 @@ def oracle_sift(case, rec):
     import emd
     x = gens.sig_of(case['sig'])            # possibly float32 / integer dtype: passed to emd as stored
     eo = {'interp_method': case['interp']}
-    xo = {'pad_width': case['pad']}
+    xo = {'pad_width': case['pad']}           # one options object for every call below, as a caller would hold it
+    if case.get('par'):
+        xo['parabolic_extrema'] = True
+    if case.get('magpad') is not None:
+        xo['mag_pad_opts'] = dict(MAGPADS[case['magpad']])
+    rec.cls('extrema-options=%s' % ('pad-width-only' if len(xo) == 1 else 'refined/custom-padding'))
     kw = dict(imf_opts=dict(case['opts']), envelope_opts=eo, extrema_opts=xo)
     rec.cls('dtype=' + case['sig'].get('dtype', 'f8'))
     try:
@@ -88,7 +97,7 @@ def oracle_sift(case, rec):
             rec.cls('peel-within-1e-8')
             continue
         r = refmodel.ref_extract(res, envelope_opts=eo, extrema_opts=xo, hard_cap=1200, ignore_input_ties=(j == 0), **case['opts'])
-        if r.kind == 'error' or r.note or r.margin_stop <= 1e-6 or r.margin_tie <= 1e-7:
+        if r.kind == 'error' or r.note or r.margin_stop <= 1e-6 or r.margin_tie <= 1e-7 or r.margin_par <= 1e-4:
             rec.cls('peel-ill-conditioned-mismatch')
             break
         raise Violation('C03/sift/peel/column-is-not-extraction-of-residual', 'column %d of %d: rel dev %.3g' % (
